@@ -126,6 +126,9 @@ func ruleC19(w *World) {
 	// R5: the interface contracts R1 relies on when a listed operation calls a key through its interface
 	// (Encode / EncodeCompressed / Equals / Size / Algorithm / String are readers; Encode* hand out memory
 	// nobody else holds) hold for every implementation in the module.
+	// R6: key objects are never written after construction, anywhere in the module (not only by the listed operations)
+	w.floor("C19.R6", 6)
+	w.ruleKeyImmutability("C19.R6")
 	w.floor("C19.R5", 20)
 	readers := []string{"Encode", "EncodeCompressed", "Equals", "Size", "Algorithm", "String"}
 	freshRes := map[string]bool{"Encode": true, "EncodeCompressed": true}
@@ -265,5 +268,150 @@ func (w *World) hasherUses(fn *ssa.Function, v ssa.Value, rule string, depth int
 				w.hasherUses(fn, val, rule, depth+1)
 			}
 		}
+	}
+}
+
+// ruleKeyImmutability (C12.R6 / C19.R6): key objects are written only while they are being built. Every store into a
+// field of a struct implementing PublicKey / PrivateKey — a Go store, or a C call that writes through the address of
+// such a field — targets an object allocated by the current activation (or handed back fresh by a constructor); the
+// only writes to an existing key are the lazily filled public-key cache of a private key, from a value built the same
+// way. So a key handed to any operation keeps the value it was created with (determinism of PublicKey(), `keys are
+// left unmodified`).
+func (w *World) ruleKeyImmutability(rule string) {
+	keyT := map[*types.Named]bool{}
+	for _, iface := range []string{"PublicKey", "PrivateKey"} {
+		for _, t := range w.implementors(rootPath, iface, rootPath) {
+			keyT[t] = true
+		}
+	}
+	if len(keyT) == 0 {
+		w.undecided(rule, "anchor:key-types", token.NoPos, "no implementation of PublicKey / PrivateKey found")
+		return
+	}
+	isKeyStruct := func(t types.Type) *types.Named {
+		n, _ := deref(t).(*types.Named)
+		if n != nil && keyT[n] {
+			return n
+		}
+		return nil
+	}
+	// cache fields: fields of a private-key type whose type is (a pointer to) a public-key type of the module
+	isCache := func(f *types.Var) bool {
+		return isKeyStruct(f.Type()) != nil
+	}
+	ea := w.effects()
+	n := 0
+	seen := map[string]int{}
+	for _, fn := range w.moduleFuncs() {
+		if isTestFile(w, fn.Pos()) || fn.Blocks == nil {
+			continue
+		}
+		check := func(ins ssa.Instruction, addr ssa.Value, how string, val ssa.Value) {
+			// walk up to the field of a key struct
+			var fld *types.Var
+			var obj ssa.Value
+			for v := addr; v != nil; {
+				switch x := v.(type) {
+				case *ssa.FieldAddr:
+					if kt := isKeyStruct(x.X.Type()); kt != nil {
+						fld, obj = addrField(x), x.X
+						v = nil
+						continue
+					}
+					v = x.X
+				case *ssa.IndexAddr:
+					v = x.X
+				case *ssa.ChangeType:
+					v = x.X
+				case *ssa.Convert:
+					v = x.X
+				default:
+					v = nil
+				}
+			}
+			fname := ""
+			if fld != nil {
+				fname = fld.Name()
+			} else if _, isPtr := addr.Type().Underlying().(*types.Pointer); isPtr && isKeyStruct(addr.Type()) != nil && how == "store" {
+				// `*k = value`: the whole key object is overwritten
+				if _, isAlloc := addr.(*ssa.Alloc); !isAlloc {
+					obj, fname = addr, "(whole object)"
+				}
+			}
+			if fname == "" {
+				return
+			}
+			if fld == nil {
+				fld = types.NewVar(token.NoPos, nil, fname, types.Typ[types.Invalid])
+			}
+			n++
+			key := fmt.Sprintf("%s/key-write:%s.%s", fnKey(fn), typeShort(deref(obj.Type())), fld.Name())
+			seen[key]++
+			if seen[key] > 1 {
+				key += fmt.Sprintf("#%d", seen[key])
+			}
+			fresh := true
+			desc := ""
+			for _, r := range ea.roots(obj, fn, 0) {
+				if r.kind != rkFresh {
+					fresh = false
+					desc = rootDesc(r)
+				}
+			}
+			if fresh {
+				w.ok(rule, key, ins.Pos(), "written while the object is under construction ("+how+")")
+				return
+			}
+			onlyGlobals := true
+			for _, r := range ea.roots(obj, fn, 0) {
+				if r.kind != rkFresh && r.kind != rkGlobal {
+					onlyGlobals = false
+				}
+			}
+			if onlyGlobals && (fn.Name() == "init" || allCallersInit(w, fn)) {
+				w.ok(rule, key, ins.Pos(), "package-level key object written during package initialisation only ("+how+")")
+				return
+			}
+			if isCache(fld) && val != nil {
+				// the cache of the derived public key: filled with an object built in this activation
+				vf := true
+				for _, r := range ea.roots(val, fn, 0) {
+					if r.kind != rkFresh {
+						vf = false
+					}
+				}
+				w.check(vf, rule, key, ins.Pos(), "lazily filled public-key cache, from a key built in this activation", "the public-key cache of an existing private key is assigned a key that is not built here ("+render(val)+")")
+				return
+			}
+			w.viol(rule, key, ins.Pos(), fmt.Sprintf("field %s of an existing %s object (%s) is written (%s): keys are values — one that was handed to a caller or is shared between goroutines changes under them", fld.Name(), typeShort(deref(obj.Type())), desc, how))
+		}
+		instrsFlat(fn, func(ins ssa.Instruction) {
+			switch x := ins.(type) {
+			case *ssa.Store:
+				check(ins, x.Addr, "store", x.Val)
+			case ssa.CallInstruction:
+				cc := x.Common()
+				callee := cc.StaticCallee()
+				if callee == nil {
+					return
+				}
+				if cn, ok := cgoName(callee); ok {
+					for i, a := range cc.Args {
+						if cgoWrites(cn, i) {
+							check(ins, a, "written by C."+cn, nil)
+						}
+					}
+				} else if inModule(callee) && callee.Blocks != nil {
+					for i, a := range cc.Args {
+						if _, isPtr := a.Type().Underlying().(*types.Pointer); isPtr && i < len(callee.Params) && w.callMayWritePointArg(x, a) {
+							check(ins, a, "written through "+callee.Name(), nil)
+						}
+					}
+				}
+			}
+		})
+	}
+	if n == 0 {
+		w.undecided(rule, "key-writes", token.NoPos, "no write to a key object found (anchors moved?)")
 	}
 }
